@@ -112,11 +112,142 @@ Proof.
   exists a, b, c, d. reflexivity.
 Qed.
 
-(* ------------------------------------------------------------------ the ID3v1 search window *)
-Lemma find_id3v1_app a r : 131 <= zlen r -> find_id3v1 (a ++ r) = find_id3v1 r.
+(* ------------------------------------------------------------------ bytes.index *)
+Lemma index_of_bounds pat : forall l i, index_of pat l = Some i -> 0 <= i <= zlen l.
 Proof.
-  intros H. unfold find_id3v1. rewrite zlen_app. pose proof (zlen_nonneg a).
-  rewrite zdrop_app_r by lia. f_equal. f_equal. lia.
+  induction l as [|x l IH]; intros i H; [discriminate|].
+  cbn [index_of] in H. rewrite zlen_cons. pose proof (zlen_nonneg l).
+  destruct (starts_with pat (x :: l)); [inversion H; lia|].
+  destruct (index_of pat l) as [j|]; [|discriminate]. specialize (IH j eq_refl). inversion H; lia.
+Qed.
+
+Lemma zdrop_cons_S {A} (x : A) l j : 0 <= j -> zdrop (j + 1) (x :: l) = zdrop j l.
+Proof. intros H. unfold zdrop. replace (Z.to_nat (j + 1)) with (S (Z.to_nat j)) by lia. reflexivity. Qed.
+
+(* the index found is an occurrence ... *)
+Lemma index_of_occ pat : forall l i, index_of pat l = Some i -> starts_with pat (zdrop i l) = true.
+Proof.
+  induction l as [|x l IH]; intros i H; [discriminate|].
+  cbn [index_of] in H. destruct (starts_with pat (x :: l)) eqn:S.
+  - inversion H; subst i. rewrite zdrop_0. exact S.
+  - destruct (index_of pat l) as [j|] eqn:E; [|discriminate]. inversion H; subst i.
+    pose proof (index_of_bounds _ _ _ E). rewrite zdrop_cons_S by lia. apply IH. reflexivity.
+Qed.
+(* ... and the first one *)
+Lemma index_of_first pat : forall l i j, index_of pat l = Some i -> 0 <= j < i -> starts_with pat (zdrop j l) = false.
+Proof.
+  induction l as [|x l IH]; intros i j H Hj; [discriminate|].
+  cbn [index_of] in H. destruct (starts_with pat (x :: l)) eqn:S; [inversion H; lia|].
+  destruct (index_of pat l) as [k|] eqn:E; [|discriminate]. inversion H; subst i.
+  destruct (Z.eq_dec j 0) as [->|Hn]; [rewrite zdrop_0; exact S|].
+  replace j with ((j - 1) + 1) by lia. rewrite zdrop_cons_S by lia. apply (IH k); [reflexivity|lia].
+Qed.
+(* an occurrence at j means index finds one at or before j *)
+Lemma index_of_le pat : pat <> [] -> forall l j, 0 <= j -> starts_with pat (zdrop j l) = true ->
+  exists i, index_of pat l = Some i /\ i <= j.
+Proof.
+  intros Hp. induction l as [|x l IH]; intros j Hj S.
+  - unfold zdrop in S. rewrite skipn_nil in S. destruct pat; [congruence|discriminate].
+  - cbn [index_of]. destruct (starts_with pat (x :: l)) eqn:S0; [exists 0; split; [reflexivity|lia]|].
+    destruct (Z.eq_dec j 0) as [->|Hn]; [rewrite zdrop_0 in S; congruence|].
+    replace j with ((j - 1) + 1) in S by lia. rewrite zdrop_cons_S in S by lia.
+    destruct (IH (j - 1) ltac:(lia) S) as (i & E & Hi). rewrite E. exists (i + 1). split; [reflexivity|lia].
+Qed.
+(* an index behind a prefix is an index in the rest *)
+Lemma index_of_app_r pat : forall t m i, index_of pat (t ++ m) = Some i -> zlen t <= i ->
+  index_of pat m = Some (i - zlen t).
+Proof.
+  induction t as [|x t IH]; intros m i H Hi.
+  - cbn [app] in H. change (zlen (@nil Z)) with 0. rewrite Z.sub_0_r. exact H.
+  - rewrite zlen_cons in *. pose proof (zlen_nonneg t). cbn [app index_of] in H.
+    destruct (starts_with pat (x :: t ++ m)); [inversion H; lia|].
+    destruct (index_of pat (t ++ m)) as [k|] eqn:E; [|discriminate]. inversion H; subst i.
+    rewrite (IH m k E ltac:(lia)). f_equal. lia.
+Qed.
+Lemma ape_has_tag x : starts_with M_APE x = true -> starts_with M_TAG (zdrop 3 x) = true.
+Proof.
+  intros H. apply starts_with_split in H. rewrite H. change (zlen M_APE) with 8.
+  change (zdrop 3 (M_APE ++ zdrop 8 x)) with (M_TAG ++ [69; 88] ++ zdrop 8 x). apply starts_with_app.
+Qed.
+
+(* ------------------------------------------------------------------ the ID3v1 search window *)
+(* when the window begins at or behind `start`, the start parameter is irrelevant *)
+Lemma find_v1_in_nostart off s data : s <= off -> find_v1_in off s data = find_v1_in 0 0 data.
+Proof.
+  intros H. unfold find_v1_in.
+  destruct ((32 <=? zlen data) && starts_with M_APE (zdrop (zlen data - 32) data)); [reflexivity|].
+  destruct (index_of M_TAG data) as [idx|] eqn:E; [|reflexivity].
+  apply index_of_bounds in E.
+  destruct (match index_of M_APE data with Some ape_idx => idx =? ape_idx + 3 | None => false end); [reflexivity|].
+  bset (off + idx <? s) false. bset (0 + idx <? 0) false. reflexivity.
+Qed.
+
+Lemma find_id3v1_short s f : zlen f <= 131 -> find_id3v1 s f = find_v1_in 0 s f.
+Proof. intros H. unfold find_id3v1. rewrite zdrop_neg by lia. rewrite Z.sub_diag. reflexivity. Qed.
+
+(* a payload of at least 131 bytes keeps the search window away from what is in front of it *)
+Lemma find_id3v1_app s a r : 131 <= zlen r -> s <= zlen a -> find_id3v1 s (a ++ r) = find_id3v1 0 r.
+Proof.
+  intros H Hs. unfold find_id3v1. rewrite zlen_app. pose proof (zlen_nonneg a).
+  rewrite zdrop_app_r by lia. replace (zlen a + zlen r - 131 - zlen a) with (zlen r - 131) by lia.
+  assert (L : zlen (zdrop (zlen r - 131) r) = 131) by (rewrite zlen_zdrop by lia; lia).
+  rewrite L. rewrite (find_v1_in_nostart (zlen a + zlen r - 131) s) by lia.
+  rewrite (find_v1_in_nostart (zlen r - 131) 0) by lia. reflexivity.
+Qed.
+
+(* THE window lemma for a payload of ANY length without ID3v1 tag: if the search on the payload alone finds nothing,
+   the search on tag ++ payload that may not begin inside the tag finds nothing either (a b"TAG" in the tail of the
+   tag stops the search, an occurrence in the payload is the payload's own first occurrence) *)
+Lemma find_v1_in_prefix t m off : find_v1_in 0 0 m = None -> find_v1_in off (off + zlen t) (t ++ m) = None.
+Proof.
+  intros Hm. destruct (find_v1_in off (off + zlen t) (t ++ m)) as [n|] eqn:Hf; [|reflexivity]. exfalso.
+  unfold find_v1_in in Hf. pose proof (zlen_nonneg t). pose proof (zlen_nonneg m).
+  destruct ((32 <=? zlen (t ++ m)) && starts_with M_APE (zdrop (zlen (t ++ m) - 32) (t ++ m))) eqn:Ft; [discriminate|].
+  destruct (index_of M_TAG (t ++ m)) as [idx|] eqn:Ei; [|discriminate].
+  destruct (match index_of M_APE (t ++ m) with Some ape_idx => idx =? ape_idx + 3 | None => false end) eqn:Ea; [discriminate|].
+  destruct (off + idx <? off + zlen t) eqn:Es; [discriminate|].
+  destruct ((128 <? zlen (t ++ m) - idx) || (zlen (t ++ m) - idx <? 124)) eqn:El; [discriminate|].
+  assert (Hi : zlen t <= idx) by lia.
+  pose proof (index_of_app_r _ _ _ _ Ei Hi) as Em.
+  unfold find_v1_in in Hm. rewrite Em in Hm.
+  destruct ((32 <=? zlen m) && starts_with M_APE (zdrop (zlen m - 32) m)) eqn:Fm.
+  - (* the payload ends with an APEv2 footer: so does the window *)
+    apply andb_true_iff in Fm as [F1 F2]. rewrite zlen_app in Ft.
+    rewrite zdrop_app_r in Ft by lia. replace (zlen t + zlen m - 32 - zlen t) with (zlen m - 32) in Ft by lia.
+    rewrite F2 in Ft. assert (F3 : (32 <=? zlen t + zlen m) = true) by lia. rewrite F3 in Ft. discriminate.
+  - destruct (match index_of M_APE m with Some ape_idx => idx - zlen t =? ape_idx + 3 | None => false end) eqn:Eam.
+    + (* the payload's TAG is the one of an APETAGEX in the payload: then the window's first APETAGEX is that one too *)
+      destruct (index_of M_APE m) as [a'|] eqn:Ea'; [|discriminate].
+      pose proof (index_of_bounds _ _ _ Ea') as Ba'.
+      pose proof (index_of_occ _ _ _ Ea') as Oa'.
+      assert (Oa : starts_with M_APE (zdrop (zlen t + a') (t ++ m)) = true).
+      { rewrite zdrop_app_r by lia. replace (zlen t + a' - zlen t) with a' by lia. exact Oa'. }
+      destruct (index_of_le M_APE ltac:(discriminate) (t ++ m) (zlen t + a') ltac:(lia) Oa) as (a & Eaa & Ha).
+      rewrite Eaa in Ea. pose proof (index_of_bounds _ _ _ Eaa) as Ba.
+      assert (a + 3 < idx) by lia.
+      pose proof (index_of_occ _ _ _ Eaa) as Occ. apply ape_has_tag in Occ.
+      rewrite zdrop_zdrop in Occ by lia.
+      rewrite (index_of_first _ _ _ (3 + a) Ei ltac:(lia)) in Occ. discriminate.
+    + rewrite zlen_app in El. replace (zlen t + zlen m - idx) with (zlen m - (idx - zlen t)) in El by lia.
+      rewrite El in Hm. assert (E0 : (0 + (idx - zlen t) <? 0) = false) by lia. rewrite E0 in Hm. discriminate.
+Qed.
+
+Lemma find_id3v1_prefix T m : find_id3v1 0 m = None -> find_id3v1 (zlen T) (T ++ m) = None.
+Proof.
+  intros Hm. pose proof (zlen_nonneg T). pose proof (zlen_nonneg m).
+  destruct (Z_le_gt_dec 131 (zlen m)) as [L|L]; [rewrite find_id3v1_app by lia; exact Hm|].
+  rewrite find_id3v1_short in Hm by lia.
+  assert (Hm0 : find_v1_in 0 0 m = None) by exact Hm.
+  unfold find_id3v1. rewrite zlen_app.
+  destruct (Z_le_gt_dec (zlen T + zlen m - 131) 0) as [K|K].
+  - rewrite zdrop_neg by lia. rewrite zlen_app. replace (zlen T + zlen m - (zlen T + zlen m)) with 0 by lia.
+    pose proof (find_v1_in_prefix T m 0 Hm0) as P. rewrite Z.add_0_l in P. exact P.
+  - rewrite zdrop_app_l by lia. set (t := zdrop (zlen T + zlen m - 131) T).
+    assert (Lt : zlen t = 131 - zlen m) by (subst t; rewrite zlen_zdrop by lia; lia).
+    rewrite zlen_app.
+    pose proof (find_v1_in_prefix t m (zlen T - zlen t) Hm0) as P.
+    replace (zlen T - zlen t + zlen t) with (zlen T) in P by lia.
+    replace (zlen T + zlen m - (zlen t + zlen m)) with (zlen T - zlen t) by lia. exact P.
 Qed.
 
 Lemma strict_v1_app a r : 131 <= zlen r -> strict_v1 (a ++ r) = strict_v1 r.
